@@ -590,6 +590,10 @@ def _dedupe_context(ctx, ev):
         if c[0] == 'un' and c[1] == '!':
             neg = True
             c = c[3]
+        if c[0] == 'bin' and c[1] in ('==', '!=') and c[2][0] == 'mcall' and c[2][1].split('::')[-1] == 'find' and \
+                c[3][0] == 'mcall' and c[3][1].endswith(('::end', '::cend')) and c[3][2] == c[2][2]:
+            # seen.find(k) != seen.end()  is  seen.count(k) != 0
+            c = ('bin', '!=' if c[1] == '!=' else '==', ('mcall', 'X::count', c[2][2], c[2][3]), ('int', 0))
         if c[0] == 'bin' and c[1] in ('!=', '>') and c[3] == ('int', 0):
             c = c[2]
         elif c[0] == 'bin' and c[1] == '==' and c[3] == ('int', 0):
